@@ -235,6 +235,16 @@ func genScenario(r *hx.Rng, id int, maxUnits int, cluster bool, refuse string) *
 	}
 	n := 1 + r.Intn(maxUnits)
 	tags := 2 + r.Intn(6)
+	// directed: a sync link to a cluster whose units all live in one slot, resynchronised in full half-way, with the connection
+	// reset under the first unit after the restart (the latest record of the slot is then one of the numbering before)
+	oneSlotReset := cluster && refuse == "" && !filterOn && maxUnits >= 3 && r.Chance(12)
+	if oneSlotReset {
+		sc.mode = "sync"
+		tags = 1
+		if n < 3 {
+			n = 3
+		}
+	}
 	for u := 0; u < n; u++ {
 		un := unit{S: off, Ok: true}
 		nc := 1
@@ -244,7 +254,7 @@ func genScenario(r *hx.Rng, id int, maxUnits int, cluster bool, refuse string) *
 			add([]byte("MULTI"))
 		}
 		tag := fmt.Sprintf("t%d", r.Intn(tags))
-		if cluster {
+		if cluster && !oneSlotReset {
 			// tags with multi-byte UTF-8 and with bytes that are not UTF-8 at all
 			switch r.Intn(4) {
 			case 0:
@@ -353,6 +363,18 @@ func genScenario(r *hx.Rng, id int, maxUnits int, cluster bool, refuse string) *
 		if r.Bool() {
 			sc.resetAt = 1 + r.Intn(3)
 		}
+	}
+	if oneSlotReset {
+		sc.resyncAt = 1 + r.Intn(len(sc.units)-2)
+		sc.snapAt = sc.resyncAt + r.Intn(len(sc.units)-sc.resyncAt)
+		if sc.snapAt <= sc.resyncAt {
+			sc.snapAt = sc.resyncAt + 1
+		}
+		if sc.snapAt >= len(sc.units) {
+			sc.snapAt = len(sc.units) - 1
+		}
+		sc.resetAt = 1 + r.Intn(3)
+		sc.stall = 0
 	}
 	if cluster && len(sc.units) >= 3 && sc.mode == "parallel" && r.Chance(60) {
 		sc.stall = 1 + r.Intn(len(sc.units)-2)
@@ -1202,7 +1224,7 @@ func main() {
 		}
 		base := genScenario(r, 0, *maxUnits, *cluster, kind)
 		if *mig {
-			base.resyncAt, base.stall = 0, 0
+			base.resyncAt, base.stall, base.resetAt = 0, 0, 0
 			base.migU = 1 + r.Intn(len(base.units))
 			base.migAt = []string{"marker", "biz", "exec"}[r.Intn(3)]
 			base.migKind = []string{"moved", "ask"}[r.Intn(2)]
@@ -1226,7 +1248,7 @@ func main() {
 			s := *base
 			id += *shards
 			s.id = id
-			s.resyncAt = 0
+			s.resyncAt, s.resetAt = 0, 0
 			s.crash = []int{k}
 			if r.Chance(25) {
 				s.crash = append(s.crash, 1+r.Intn(total))
